@@ -77,10 +77,10 @@ func guardSources(v ssa.Value, d int, out map[string]bool) {
 		guardSources(x.X, d+1, out)
 		guardSources(x.Y, d+1, out)
 	case *ssa.Call:
-		if g := core.StaticCallee(x); g != nil && g.Signature.Recv() != nil {
-			switch g.Name() {
+		if g := core.StaticCallee(x); g != nil {
+			switch core.BaseName(g) {
 			case "isProperties", "isDefault", "isExample":
-				out[g.Name()] = true
+				out[core.BaseName(g)] = true
 			}
 		}
 	}
@@ -180,7 +180,13 @@ func GuardScope(p *core.Prog, r *core.Report) {
 			r.Unk(rule, "exemption:"+name, "-", "predicate not found")
 			continue
 		}
-		rt := &router{p: p, recvType: core.NamedOf(f.Signature.Recv().Type()), primitive: map[*ssa.Function]string{}, relevant: func(*ssa.Function) bool { return false }}
+		var recvT *types.Named
+		if f.Signature.Recv() != nil {
+			recvT = core.NamedOf(f.Signature.Recv().Type())
+		} else if len(f.Params) > 0 {
+			recvT = core.NamedOf(f.Params[0].Type()) // converted into a function taking the validator first
+		}
+		rt := &router{p: p, recvType: recvT, primitive: map[*ssa.Function]string{}, relevant: func(*ssa.Function) bool { return false }}
 		bounds := map[string]bool{}
 		trueRuns, total := 0, 0
 		rt.enumerate(f, []string{"recv"}, func(run *routeRun) {
